@@ -384,7 +384,7 @@ type impCheck struct {
 func (ic *impCheck) judgeWorld(w *imp.World) (*imp.Analysis, []string) {
 	a, msg := renderAnalyze(w)
 	if a == nil {
-		if ic.tolerateFailure != nil && strings.HasPrefix(msg, "render failed: ERROR") && ic.tolerateFailure(w) {
+		if ic.tolerateFailure != nil && (strings.HasPrefix(msg, "render failed: ERROR") || strings.HasPrefix(msg, "intermediate render failed: ERROR")) && ic.tolerateFailure(w) {
 			return nil, nil
 		}
 		return nil, []string{msg}
